@@ -71,6 +71,7 @@ class Join(E):
     e: E
     positive: bool = False
     gather: bool = False
+    assoc: str = ''   # 'left' | 'right': the documented s<{e}+ / s>{e}+ (always positive, separators kept)
 
 
 @dataclass(frozen=True)
@@ -238,7 +239,7 @@ def rebuild(e: E, kids: list) -> E:
     if isinstance(e, Choice):
         return Choice(tuple(kids))
     if isinstance(e, Join):
-        return Join(kids[0], kids[1], e.positive, e.gather)
+        return Join(kids[0], kids[1], e.positive, e.gather, e.assoc)
     if isinstance(e, (Named, NamedList)):
         return type(e)(e.n, kids[0])
     if hasattr(e, 'e'):
@@ -329,6 +330,8 @@ def txt(e: E) -> str:
     if isinstance(e, PClo):
         return '{' + txt(e.e) + '}+'
     if isinstance(e, Join):
+        if e.assoc:
+            return f'{txt_term(e.sep)}{"<" if e.assoc == "left" else ">"}{{{txt(e.e)}}}+'
         op = '.' if e.gather else '%'
         return f'{txt_term(e.sep)}{op}{{{txt(e.e)}}}' + ('+' if e.positive else '')
     if isinstance(e, LA):
@@ -445,6 +448,8 @@ def to_model(g: Grammar, name='T', **settings):
         if isinstance(e, PClo):
             return peg.PositiveClosure(exp=b(e.e))
         if isinstance(e, Join):
+            if e.assoc:
+                return (peg.LeftJoin if e.assoc == 'left' else peg.RightJoin)(exp=b(e.e), sep=bt(e.sep))
             cls = {(False, False): peg.Join, (True, False): peg.PositiveJoin,
                    (False, True): peg.Gather, (True, True): peg.PositiveGather}[(e.positive, e.gather)]
             return cls(exp=b(e.e), sep=bt(e.sep))
